@@ -882,6 +882,181 @@ theorem C07_finished_is_wellformed (a : Option Cfg) (buf0 : Bytes) (c m : Nat) (
   obtain ⟨hv, hp⟩ := built_wellformed a b w hB
   exact ⟨w, hB.len_ok, hB.le_size, hs, hv, hp⟩
 
+/-! ### finishing (stun_agent_finish_message) -/
+
+theorem stunSha1_size {H : Hashes} (hH : ∀ k t, (H.hmac k t).size = 20) {b : Bytes} {len : Nat} {ml : UInt16}
+    {key sha : Bytes} {pad : Bool} (h : stunSha1 H b len ml key pad = .ok sha) : sha.size = 20 := by
+  unfold stunSha1 at h
+  split at h
+  · cases h
+  · have := Except.ok.inj h; rw [← this]; exact hH _ _
+
+theorem finishPrep_buf {H : Hashes} {c : Cfg} {msg m : Msg} {k md5 : Bytes} {skip : Bool}
+    (h : finishPrep H c msg k = .ok (skip, m, md5)) : m.buf = msg.buf := by
+  unfold finishPrep at h
+  simp only at h
+  split at h
+  · have e : _ = m := congrArg (fun x => x.2.1) (Except.ok.inj h); rw [← e]
+  · split at h
+    · split at h
+      · split at h
+        · have e : _ = m := congrArg (fun x => x.2.1) (Except.ok.inj h); rw [← e]
+        · cases h
+        · cases h
+      · cases h
+      · cases h
+      · have e : _ = m := congrArg (fun x => x.2.1) (Except.ok.inj h); rw [← e]
+    · have e : _ = m := congrArg (fun x => x.2.1) (Except.ok.inj h); rw [← e]
+
+theorem finishAppendMI_built {H : Hashes} (hH : ∀ k t, (H.hmac k t).size = 20) {c : Cfg} {m m' : Msg}
+    {k md5 : Bytes} {w : UInt16} (hB : Built (some c) m.buf w) (hcap : m.buf.size ≤ 65535)
+    (h : finishAppendMI H c m k md5 = .ok (some m')) :
+    ∃ w', Built (some c) m'.buf w' ∧ m'.buf.size = m.buf.size := by
+  unfold finishAppendMI at h
+  split at h
+  · cases h
+  · cases h
+  · rename_i b ptr hap
+    split at h
+    · cases h
+    · split at h
+      · cases h
+      · rename_i sha hsha
+        split at h
+        · cases h
+        · rename_i b2 hwr
+          have := Option.some.inj (Except.ok.inj h)
+          rw [← this]
+          exact preserve_of_write (some c) m.buf w tMI 20 sha b b2 ptr hB hcap (by decide)
+            (by rw [stunSha1_size hH hsha]; exact Nat.le_refl _) hap hwr
+
+theorem finishFPR_built {c : Cfg} {m m' : Msg} {w : UInt16} (hB : Built (some c) m.buf w)
+    (hcap : m.buf.size ≤ 65535) (h : finishFPR c m = .ok (some m')) :
+    ∃ w', Built (some c) m'.buf w' ∧ m'.buf.size = m.buf.size := by
+  unfold finishFPR at h
+  split at h
+  · split at h
+    · cases h
+    · cases h
+    · rename_i b ptr hap
+      split at h
+      · cases h
+      · split at h
+        · cases h
+        · rename_i fpr _
+          split at h
+          · cases h
+          · rename_i b2 hwr
+            have := Option.some.inj (Except.ok.inj h)
+            rw [← this]
+            exact preserve_of_write (some c) m.buf w tFPR 4 (be32Bytes fpr) b b2 ptr hB hcap (by decide)
+              (Nat.le_refl _) hap hwr
+  · have := Option.some.inj (Except.ok.inj h)
+    rw [← this]; exact ⟨w, hB, rfl⟩
+
+/-- Finishing either yields a length within the buffer or zero; a non-zero result is the length of a
+    message that is again in a well-formed builder state (so it passes the library's own validation
+    and the independent parser, `built_wellformed`).  The buffer size never changes.
+    Hypothesis on the parameter HMAC: it returns 20 bytes. -/
+theorem C07_finish_len (H : Hashes) (hH : ∀ k t, (H.hmac k t).size = 20) (ag ag' : Agent) (msg m' : Msg)
+    (key : Option Bytes) (w : UInt16) (r : Nat) (hB : Built (some ag.cfg) msg.buf w)
+    (hcap : msg.buf.size ≤ 65535) (hf : finishMessage H ag msg key = .ok (r, ag', m')) :
+    m'.buf.size = msg.buf.size ∧
+    (r = 0 ∨ (r ≤ msg.buf.size ∧ ∃ w', Built (some ag.cfg) m'.buf w' ∧ w'.toNat = r)) := by
+  unfold finishMessage at hf
+  simp only at hf
+  split at hf
+  · rename_i cls method _ _
+    split at hf
+    · -- saved ids full
+      have e := Except.ok.inj hf
+      have e1 : 0 = r := congrArg Prod.fst e
+      have e2 : msg = m' := congrArg (fun x => x.2.2) e
+      rw [← e2]; exact ⟨rfl, Or.inl e1.symm⟩
+    · rename_i savedIdx _
+      -- MESSAGE-INTEGRITY stage
+      cases hmi : finishMI H ag.cfg msg (pickKey msg.key key) with
+      | error e => rw [hmi] at hf; cases hf
+      | ok x =>
+        obtain ⟨okmi, m1⟩ := x
+        rw [hmi] at hf
+        -- the message after the M-I stage is still a well-formed builder state of the same size
+        have hm1 : (∃ w1, Built (some ag.cfg) m1.buf w1) ∧ m1.buf.size = msg.buf.size := by
+          unfold finishMI at hmi
+          split at hmi
+          · have e : _ = m1 := congrArg Prod.snd (Except.ok.inj hmi)
+            rw [← e]; exact ⟨⟨w, hB⟩, rfl⟩
+          · rename_i k _
+            split at hmi
+            · cases hmi
+            · rename_i m0 _ hprep
+              have hb0 := finishPrep_buf hprep
+              have e : _ = m1 := congrArg Prod.snd (Except.ok.inj hmi)
+              rw [← e, hb0]; exact ⟨⟨w, hB⟩, rfl⟩
+            · rename_i m0 md5 hprep
+              have hb0 := finishPrep_buf hprep
+              split at hmi
+              · cases hmi
+              · have e : _ = m1 := congrArg Prod.snd (Except.ok.inj hmi)
+                rw [← e, hb0]; exact ⟨⟨w, hB⟩, rfl⟩
+              · rename_i m2 happ
+                have e : _ = m1 := congrArg Prod.snd (Except.ok.inj hmi)
+                rw [← e]
+                obtain ⟨w2, hB2, hs2⟩ := finishAppendMI_built hH (w := w) (by rw [hb0]; exact hB)
+                  (by rw [hb0]; exact hcap) happ
+                exact ⟨⟨w2, hB2⟩, by rw [hs2, hb0]⟩
+        obtain ⟨⟨w1, hB1⟩, hs1⟩ := hm1
+        cases okmi
+        · simp only at hf
+          have e := Except.ok.inj hf
+          have e1 : 0 = r := congrArg Prod.fst e
+          have e2 : m1 = m' := congrArg (fun x => x.2.2) e
+          rw [← e2]; exact ⟨hs1, Or.inl e1.symm⟩
+        · simp only at hf
+          cases hfp : finishFPR ag.cfg m1 with
+          | error e => rw [hfp] at hf; cases hf
+          | ok y =>
+            rw [hfp] at hf
+            cases y with
+            | none =>
+              simp only at hf
+              have e := Except.ok.inj hf
+              have e1 : 0 = r := congrArg Prod.fst e
+              have e2 : m1 = m' := congrArg (fun x => x.2.2) e
+              rw [← e2]; exact ⟨hs1, Or.inl e1.symm⟩
+            | some m2 =>
+              simp only at hf
+              obtain ⟨w2, hB2, hs2⟩ := finishFPR_built hB1 (by rw [hs1]; exact hcap) hfp
+              split at hf
+              · rename_i id len _ hlen
+                have e := Except.ok.inj hf
+                have e1 : len.toNat = r := congrArg Prod.fst e
+                have e2 : { m2 with key := _ } = m' := congrArg (fun x => x.2.2) e
+                have hbuf : m'.buf = m2.buf := by rw [← e2]
+                have hw : len = w2 := by
+                  have := hB2.len_ok
+                  rw [hlen] at this
+                  exact Except.ok.inj this
+                rw [hbuf]
+                refine ⟨by rw [hs2, hs1], Or.inr ⟨?_, w2, hB2, by rw [← hw]; exact e1⟩⟩
+                rw [← e1, hw, ← hs1, ← hs2]
+                exact hB2.le_size
+              · cases hf
+              · cases hf
+  · cases hf
+  · cases hf
+
+/-- a finished message passes the library's own length validation and the independent parser -/
+theorem C07_finished_message_wellformed (H : Hashes) (hH : ∀ k t, (H.hmac k t).size = 20) (ag ag' : Agent)
+    (msg m' : Msg) (key : Option Bytes) (w : UInt16) (r : Nat) (hB : Built (some ag.cfg) msg.buf w)
+    (hcap : msg.buf.size ≤ 65535) (hf : finishMessage H ag msg key = .ok (r, ag', m')) (hr : r ≠ 0) :
+    validateLen (m'.buf.extract 0 r) (!noAlign (some ag.cfg)) = .ok (.len r) ∧
+    ∃ attrs, parseAttrs (!noAlign (some ag.cfg)) (m'.buf.extract 0 r).toList = some attrs := by
+  obtain ⟨_, h⟩ := C07_finish_len H hH ag ag' msg m' key w r hB hcap hf
+  rcases h with h | ⟨_, w', hB', hw'⟩
+  · exact absurd h hr
+  · rw [← hw']; exact built_wellformed _ _ _ hB'
+
 /-! ### non-vacuity -/
 
 /-- a 40-byte buffer -/
